@@ -19,28 +19,28 @@ import (
 )
 
 var checks = map[string]func(*vk.Run){
-	"C14": func(r *vk.Run) { ec.Run(r, "C14") },
-	"C15": func(r *vk.Run) { ec.Run(r, "C15") },
-	"C13": ec.RunC13,
-	"C10": ka.RunC10,
-	"C11": ka.RunC11,
-	"C12": ka.RunC12,
-	"C03": ka.RunC03,
-	"C01": rp.RunC01,
-	"C02": rp.RunC02,
-	"C09": rp.RunC09,
-	"C17": rp.RunC17,
-	"C20": kms.RunC20,
-	"X-CLI": ka.RunCLI,
+	"C14":      func(r *vk.Run) { ec.Run(r, "C14") },
+	"C15":      func(r *vk.Run) { ec.Run(r, "C15") },
+	"C13":      ec.RunC13,
+	"C10":      ka.RunC10,
+	"C11":      ka.RunC11,
+	"C12":      ka.RunC12,
+	"C03":      ka.RunC03,
+	"C01":      rp.RunC01,
+	"C02":      rp.RunC02,
+	"C09":      rp.RunC09,
+	"C17":      rp.RunC17,
+	"C20":      kms.RunC20,
+	"X-CLI":    ka.RunCLI,
 	"X-EFLAGS": ka.RunEndorseFlags,
-	"C16": disc.RunC16,
-	"C19": pl.RunC19,
-	"C06": gold.RunC06,
-	"C18": abiref.RunC18,
-	"C04": meas.RunC04,
-	"C05": meas.RunC05,
-	"C07": pars.RunC07,
-	"C08": pars.RunC08,
+	"C16":      disc.RunC16,
+	"C19":      pl.RunC19,
+	"C06":      gold.RunC06,
+	"C18":      abiref.RunC18,
+	"C04":      meas.RunC04,
+	"C05":      meas.RunC05,
+	"C07":      pars.RunC07,
+	"C08":      pars.RunC08,
 }
 
 func main() {
